@@ -25,7 +25,7 @@ BIDS = ("b1", "bü-ö", "aw-watcher-window_host", "o'brien \"q\" %_;--")  # the 
 NEV = (0, 1, 3, 101)
 BDATA = (None, {"k": "v"}, {"cfg": {"inner": [1, None, {"x": "ü"}]}, "n": 1.5})
 BOUNDS = {
-    "quick": {"bucket_id_subsets": 16, "events_per_bucket": list(NEV), "bucket_data": 3, "name": ["absent", "given"], "profiles": ["testing", "normal"], "other_profile_legacy_file": "present and absent for every case (when present, a decoy `<name>.v2.backup.db` with other content lies beside the real legacy file as well)"},
+    "quick": {"bucket_id_subsets": 16, "events_per_bucket": list(NEV), "bucket_data": 3, "name": ["absent", "given"], "profiles": ["testing", "normal"], "outside_the_product": "2-4 buckets filled alternately event by event (1, 3, 12 events each); single buckets of 999/1000/1001/2001 overlapping, pairwise tied events; two buckets of 999..2001 plain events", "other_profile_legacy_file": "present and absent for every case (when present, a decoy `<name>.v2.backup.db` with other content lies beside the real legacy file as well)"},
     "thorough": {"as": "quick", "plus": "250 and 1001 events per bucket"},
 }
 RULE = (
@@ -48,6 +48,13 @@ def mk_events(n, salt):
         # two identical legacy events (same instant, duration, data): both must arrive
         evs[1] = Event(timestamp=evs[0].timestamp, duration=evs[0].duration, data=dict(evs[0].data))
     return evs
+
+
+def mk_overlapping(n, salt):
+    """long buckets whose events overlap their neighbours and share timestamps pairwise (seeded: the
+    migration read the legacy bucket in pages bounded by an end time, and the clipping legacy reader
+    shortened whatever straddled a page boundary)"""
+    return [Event(timestamp=T0 + timedelta(seconds=7 * (i // 2) + salt), duration=timedelta(seconds=20, microseconds=(i * 1000003 + salt) % 5_000_000), data=dict(EDATA[(i + salt) % len(EDATA)], i=i)) for i in range(n)]
 
 
 def _mk_events(n, salt):
@@ -82,6 +89,25 @@ def run_config(root, cfg):
 
     def write_legacy(tst, bids, salt):
         ds = Datastore(PeeweeStorage, testing=tst)
+        if cfg.get("interleaved") and len(bids) > 1:
+            # all buckets first, then their events alternately, one at a time (rows of one bucket are not
+            # contiguous in the legacy table; seeded: itertools.groupby over rows in insertion order)
+            per = {}
+            for j, bid in enumerate(bids):
+                kw = dict(type=f"type-{j}", client=f"client-{j}", hostname=f"host-{j}", created=datetime(2017, 1 + j, 2, 3, 4, 5, 678000, tzinfo=timezone(timedelta(hours=2 * j))))
+                if cfg["name"]:
+                    kw["name"] = f"name of {bid}"
+                if cfg["bdata"] is not None:
+                    kw["data"] = BDATA[cfg["bdata"]]
+                ds.create_bucket(bid, **kw)
+                per[bid] = mk_events(cfg["nev"], salt + j)
+            for i in range(cfg["nev"]):
+                for bid in bids:
+                    ds[bid].insert(per[bid][i])
+            want = contents(ds)
+            path = pw._db.database
+            pw._db.close()
+            return want, path
         for j, bid in enumerate(bids):
             kw = dict(type=f"type-{j}", client=f"client-{j}", hostname=f"host-{j}", created=datetime(2017, 1 + j, 2, 3, 4, 5, 678000, tzinfo=timezone(timedelta(hours=2 * j))))
             if cfg["name"]:
@@ -89,7 +115,7 @@ def run_config(root, cfg):
             if cfg["bdata"] is not None:
                 kw["data"] = BDATA[cfg["bdata"]]
             ds.create_bucket(bid, **kw)
-            evs = mk_events(cfg["nev"], salt + j)
+            evs = (mk_overlapping if cfg.get("overlap") else mk_events)(cfg["nev"], salt + j)
             if evs:
                 ds[bid].insert(evs if len(evs) > 1 else evs[0])
         want = contents(ds)
@@ -215,6 +241,14 @@ def configs(ctx):
                 n += 1
                 for other in (False, True):
                     out.append({"bids": bids, "nev": nev, "bdata": bd, "name": name, "testing": testing, "other": other})
+    # outside the product: legacy tables whose buckets were filled alternately, and long buckets of overlapping events
+    for bids in (BIDS[:2], BIDS[1:4], BIDS):
+        for nev, testing in itertools.product((1, 3, 12), (True, False)):
+            out.append({"bids": bids, "nev": nev, "bdata": 1, "name": True, "testing": testing, "other": False, "interleaved": True})
+    for nev in (999, 1000, 1001, 2001) + ((5003,) if ctx.thorough else ()):
+        for testing in (True, False):
+            out.append({"bids": BIDS[:1], "nev": nev, "bdata": None, "name": False, "testing": testing, "other": False, "overlap": True})
+            out.append({"bids": BIDS[2:4], "nev": nev, "bdata": None, "name": False, "testing": testing, "other": False})
     return out
 
 
